@@ -398,7 +398,7 @@ def exec (s : St) (w : List String) : St × J :=
   | "q2" :: k :: t :: rest =>
     withG s k (fun g =>
       let nb := match rest with
-        | n :: ns => if tokN n == 0 then none else some ((ns.take (tokN n)).map tokN)
+        | n :: ns => some ((ns.take (tokN n)).map tokN)
         | [] => none
       q2J g (tokI t) nb)
   | ["q4", k, lo, hi] => withG s k (fun g => q4J g (lo.toInt?.getD 0) (hi.toInt?.getD 0))
